@@ -462,7 +462,25 @@ static bool runScenario(uint64_t seed, uint64_t idx, int which)
   snprintf(sig, sizeof sig, "%s tick=%d lv=%zu tpw=%zu sd=%d thr=%d cT=%d cF=%d rs=%d per=%d disc=%d", N.c_str(), int(tickMs), levels, tpw, shutdownKind, nThreads, nCancelTrue ? 1 : 0, cancelLostRace ? 1 : 0, nReschedTrue ? 1 : 0, nPeriodic ? 1 : 0, nDiscarded ? 1 : 0);
   O.caseSig(vf::fnv(sig, strlen(sig)));
   if (idx % 16 == 0) O.sample("{\"kind\":\"timer scenario\",\"sig\":" + vf::jstr(sig) + ",\"timers\":" + std::to_string(nValid) + ",\"fired\":" + std::to_string(nFired) + "}");
-  delete S->svc;
+  // destruction under a watchdog: a service whose internal lists were corrupted can loop forever here
+  {
+    std::atomic<bool> destroyed{false};
+    std::thread dwd([&destroyed, idx, N]() {
+      uint64_t t0 = vf::nowNs();
+      while (!destroyed.load())
+      {
+        vf::sleepMs(5);
+        if (vf::nowNs() - t0 > 60ull * 1000000000ull)
+        {
+          vf::out().viol("C08:" + N + ":destructor-hang", "destroying the stopped service did not return within 60 s", "{\"scenario\":" + std::to_string(idx) + "}");
+          vf::out().line("{\"t\":\"stopped\",\"at\":" + std::to_string(idx) + "}");
+          vf::out().flush(); fflush(nullptr); _exit(0);
+        }
+      }
+    });
+    delete S->svc;
+    destroyed = true; dwd.join();
+  }
   // every handler object must be gone now (fired, cancelled or discarded)
   vf::sleepMs(1);
   delete S;
